@@ -372,6 +372,19 @@ impl OptSpec {
             OptSpec::Rmsprop(..) => "rmsprop",
         }
     }
+    /// the same optimizer with every hyper-parameter that was left at 0 ("use the default") replaced by the documented
+    /// default written out; `None` when nothing was left at 0
+    pub fn with_explicit_defaults(&self) -> Option<OptSpec> {
+        let d = |x: f32, dv: f32| if x == 0.0 { dv } else { x };
+        let r = match self {
+            OptSpec::Sgd(lr, dc) => OptSpec::Sgd(d(*lr, 0.1), *dc),
+            OptSpec::Sgdm(lr, m, da, dc) => OptSpec::Sgdm(d(*lr, 0.1), d(*m, 0.9), *da, *dc),
+            OptSpec::Adam(lr, b1, b2, e, dc) => OptSpec::Adam(d(*lr, 0.001), d(*b1, 0.9), d(*b2, 0.999), d(*e, 1e-8), *dc),
+            OptSpec::AdamW(lr, b1, b2, e, dc) => OptSpec::AdamW(d(*lr, 0.001), d(*b1, 0.9), d(*b2, 0.999), d(*e, 1e-8), *dc),
+            OptSpec::Rmsprop(lr, a, e, dc, m, c) => OptSpec::Rmsprop(d(*lr, 0.01), d(*a, 0.99), d(*e, 1e-8), *dc, *m, *c),
+        };
+        if format!("{:?}", r) == format!("{:?}", self) { None } else { Some(r) }
+    }
     /// The documented update equations as a scalar recurrence in double precision, one parameter.
     /// Returns the parameter trajectory and whether the run stayed well-conditioned (the centred
     /// variance `v - g_avg^2` is a difference of nearly equal numbers for near-constant gradients).
@@ -546,6 +559,18 @@ fn optimizer_checks(ctx: &mut Ctx, spec: &OptSpec, params: &Table, steps: &[Step
         }
     };
     let moderate = steps.iter().all(|s| flat_any(&s.4).iter().all(|x| x.abs() < 1e4)) && params.iter().flatten().flatten().all(|t| flat_any(t).iter().all(|x| x.abs() < 1e4));
+    // (0) a hyper-parameter left at 0 means the documented default: the run must be bit-identical to the run with that
+    // default written out
+    if let Some(explicit) = spec.with_explicit_defaults() {
+        if let Some((fin2, _)) = run_history(&explicit, params, steps) {
+            let same = fin.iter().flatten().flatten().zip(fin2.iter().flatten().flatten()).all(|(a, b)| {
+                let (x, y) = (flat_any(a), flat_any(b));
+                x.len() == y.len() && x.iter().zip(y.iter()).all(|(p, q)| p.to_bits() == q.to_bits() || (p.is_nan() && q.is_nan()))
+            });
+            ctx.oracle(same, &format!("{}-update-rule", spec.kind()), "a hyper-parameter left at 0 selects the documented default: the parameters must equal those of the run with the default written out",
+                desc.clone(), "differs from the run with explicit defaults".into(), format!("{:?}", explicit));
+        }
+    }
     // slots touched
     let mut slots: Vec<(usize, usize, bool)> = steps.iter().map(|s| (s.0, s.1, s.2)).collect();
     slots.sort();
